@@ -14,6 +14,7 @@ JsonVals == {IntV(0), IntV(1), IntV(0 - 1), Num(1, 2), IntV(3), IntV(7), Num(0 -
              Str(<<>>), Str(<<49>>), Str(ka), Str(Eacute), Str(<<97, 98>>), Str(<<65374>>), Str(<<128512>>),      \* U+FF5E sorts before U+1F600 by code point (not by UTF-16 unit)
              Bool(TRUE), Bool(FALSE),
              Arr(<<>>), Arr(<<IntV(1)>>), Arr(<<IntV(1), Str(ka)>>), Arr(<<IntV(0)>>),
+             Arr(<<Bool(TRUE), Bool(FALSE)>>), Arr(<<Bool(FALSE), Bool(TRUE)>>), Arr(<<Str(ka), Str(<<>>), IntV(0)>>), Arr(<<IntV(0), Str(<<>>), Bool(FALSE)>>),      \* mixed truthiness: any truthy member makes the array truthy
              Obj(<<>>), Obj(<< <<ka, IntV(1)>> >>)}
 
 RECURSIVE LitOf(_)
